@@ -1148,7 +1148,8 @@ func runVestCase(ta *TestApp, seed uint64, idx int, rep *Report, profile string)
 	}
 	// ---- epilogue on a dropped branch (C09): an address that had no account when a vesting message naming it was refused gets an
 	// account by an ordinary bank transfer; a later, otherwise valid split to it must be refused and leave that account alone
-	{
+	func() {
+		defer e.recoverEpilogue(idx, nOps, "the epilogue in which a refused split is followed by an ordinary transfer and a second split")
 		ec, _ := ctx.CacheContext()
 		for _, id := range cvas() {
 			lc := app.BankKeeper.LockedCoins(ec, e.addrs[id])
@@ -1173,7 +1174,7 @@ func runVestCase(ta *TestApp, seed uint64, idx int, rep *Report, profile string)
 				fmt.Sprintf("split to a fresh address refused (%v), the address funded by a bank transfer, split of 1%s to it: err=%v, account record unchanged=%v", err0 != nil, lc[0].Denom, err1, string(before) == string(after)))
 			break
 		}
-	}
+	}()
 	// ---- C12: whatever state the messages left, the vesting module's exported genesis passes its own validation
 	{
 		var verr error
@@ -1191,29 +1192,32 @@ func runVestCase(ta *TestApp, seed uint64, idx int, rep *Report, profile string)
 	// denomination switched off, a move of OTHER, selected denominations still goes through (and leaves nothing of them locked), and a
 	// split of the switched-off denomination is refused and changes nothing.
 	if multi {
-		ec, _ := ctx.CacheContext()
-		for _, id := range cvas() {
-			lc := app.BankKeeper.LockedCoins(ec, e.addrs[id])
-			if len(lc) < 2 {
-				continue
+		func() {
+			defer e.recoverEpilogue(idx, nOps, "the epilogue with one denomination switched off for sending")
+			ec, _ := ctx.CacheContext()
+			for _, id := range cvas() {
+				lc := app.BankKeeper.LockedCoins(ec, e.addrs[id])
+				if len(lc) < 2 {
+					continue
+				}
+				off, sel := lc[len(lc)-1].Denom, lc[0].Denom
+				bp := app.BankKeeper.GetParams(ec)
+				bp.SendEnabled = append(bp.SendEnabled, &banktypes.SendEnabled{Denom: off, Enabled: false})
+				app.BankKeeper.SetParams(ec, bp)
+				fresh := func() string { return sdk.AccAddress(rng.Bytes(20)).String() }
+				spendable := app.BankKeeper.SpendableCoins(ec, e.addrs[id])
+				_, err1 := e.ms.SplitVesting(sdk.WrapSDKContext(ec), &vesttypes.MsgSplitVesting{FromAddress: e.addrs[id].String(), ToAddress: fresh(), Amount: sdk.NewCoins(sdk.NewCoin(off, sdk.OneInt()))})
+				rep.Eval("C07.split_of_a_send_disabled_denomination_is_refused", err1 != nil && app.BankKeeper.LockedCoins(ec, e.addrs[id]).IsEqual(lc), idx, nOps,
+					fmt.Sprintf("split of 1%s by address %d while sending %s is switched off: err=%v", off, id, off, err1))
+				_, err2 := e.ms.MoveAvailableVestingByDenoms(sdk.WrapSDKContext(ec), &vesttypes.MsgMoveAvailableVestingByDenoms{FromAddress: e.addrs[id].String(), ToAddress: fresh(), Denoms: []string{sel}})
+				after := app.BankKeeper.LockedCoins(ec, e.addrs[id])
+				rep.Eval("C07.move_of_selected_denominations_ignores_the_send_switch_of_others", err2 == nil && after.AmountOf(sel).IsZero() && after.AmountOf(off).Equal(lc.AmountOf(off)) &&
+					app.BankKeeper.SpendableCoins(ec, e.addrs[id]).IsEqual(spendable), idx, nOps,
+					fmt.Sprintf("address %d locks %s; sending %s is switched off; moving %s: err=%v, locked afterwards %s", id, lc, off, sel, err2, after))
+				rep.Count("epilogue.send_switch")
+				break
 			}
-			off, sel := lc[len(lc)-1].Denom, lc[0].Denom
-			bp := app.BankKeeper.GetParams(ec)
-			bp.SendEnabled = append(bp.SendEnabled, &banktypes.SendEnabled{Denom: off, Enabled: false})
-			app.BankKeeper.SetParams(ec, bp)
-			fresh := func() string { return sdk.AccAddress(rng.Bytes(20)).String() }
-			spendable := app.BankKeeper.SpendableCoins(ec, e.addrs[id])
-			_, err1 := e.ms.SplitVesting(sdk.WrapSDKContext(ec), &vesttypes.MsgSplitVesting{FromAddress: e.addrs[id].String(), ToAddress: fresh(), Amount: sdk.NewCoins(sdk.NewCoin(off, sdk.OneInt()))})
-			rep.Eval("C07.split_of_a_send_disabled_denomination_is_refused", err1 != nil && app.BankKeeper.LockedCoins(ec, e.addrs[id]).IsEqual(lc), idx, nOps,
-				fmt.Sprintf("split of 1%s by address %d while sending %s is switched off: err=%v", off, id, off, err1))
-			_, err2 := e.ms.MoveAvailableVestingByDenoms(sdk.WrapSDKContext(ec), &vesttypes.MsgMoveAvailableVestingByDenoms{FromAddress: e.addrs[id].String(), ToAddress: fresh(), Denoms: []string{sel}})
-			after := app.BankKeeper.LockedCoins(ec, e.addrs[id])
-			rep.Eval("C07.move_of_selected_denominations_ignores_the_send_switch_of_others", err2 == nil && after.AmountOf(sel).IsZero() && after.AmountOf(off).Equal(lc.AmountOf(off)) &&
-				app.BankKeeper.SpendableCoins(ec, e.addrs[id]).IsEqual(spendable), idx, nOps,
-				fmt.Sprintf("address %d locks %s; sending %s is switched off; moving %s: err=%v, locked afterwards %s", id, lc, off, sel, err2, after))
-			rep.Count("epilogue.send_switch")
-			break
-		}
+		}()
 	}
 	rep.NoteCase(strings.Join(opTermsShort(opTerms), ";"), nontrivial)
 	if len(rep.Samples) < 3 {
@@ -1761,6 +1765,14 @@ func (e *vestEnv) checkMessageEvents(ctx sdk.Context, op *vestOp, pre *vestSnap,
 		}
 	}
 	e.rep.Eval("C18.vesting_message_events_describe_the_message", ok, e.cid, e.step, op.term+": "+detail)
+}
+
+// recoverEpilogue: a message handler that panics in an epilogue is a finding of that case (C20: no message panics), not a crash of the harness
+func (e *vestEnv) recoverEpilogue(idx, step int, what string) {
+	if r := recover(); r != nil {
+		e.rep.Panics = append(e.rep.Panics, fmt.Sprintf("case %d step %d: a vesting message panicked in %s: %v", idx, step, what, r))
+		e.rep.Eval("C07.split_and_move_messages_do_not_panic", false, idx, step, fmt.Sprintf("a split / move message panicked in %s: %v", what, r))
+	}
 }
 
 func (e *vestEnv) checkSummary(ctx sdk.Context) {
